@@ -303,5 +303,8 @@ ddpbool ddp_string_equal(ddpstring *str1, ddpstring *str2) {
 	if (ddp_strlen(str1) != ddp_strlen(str2)) {
 		return false; // if the length is different, it's a quick false return
 	}
+	if (ddp_string_empty(str1)) {
+		return true; // both are empty, str might be NULL which must not be passed to memcmp
+	}
 	return memcmp(str1->str, str2->str, str1->cap) == 0;
 }
